@@ -38,7 +38,7 @@ Definition ok_close := sim_ok_by QIops unit noT noE noP (qi_close (Q2Qc (1 # 100
 
 DURS = [0.0, 0.0, 0.5, 1.0, 1.5, 2.25, 3.0, 0.125]
 WEIGHTS = [0.5, 1.0, 1.5, 2.0, -1.0, 0.25, complex(0.5, 1), complex(0, -1)]
-PHASES = [0, 90, 180, 270, -90, 360, 450, -180]
+PHASES = [0, 90, 180, 270, -90, 360, 450, -180, 30, 45.5, -120.25, 33, 200.125]
 LIMIT = 36          # bits: keeps weights / expression / batch sums exact in binary64
 
 
@@ -47,8 +47,11 @@ def qc(x):
 
 
 def phasor_exact(ph):
-    """exp(i*ph*pi/180) for a multiple of 90 degrees, as an exact complex number"""
-    return [1, 1j, -1, -1j][(int(ph) // 90) % 4]
+    """exp(i*ph*pi/180): exact for a multiple of 90 degrees; otherwise cos/sin of libm (1 ulp), which the
+    tolerance of the comparison absorbs (the attribute Adc.phasor itself is checked by the phasor stream)"""
+    if float(ph) == int(ph) and int(ph) % 90 == 0:
+        return [1, 1j, -1, -1j][(int(ph) // 90) % 4]
+    return complex(math.cos(math.radians(ph)), math.sin(math.radians(ph)))
 
 
 # ------------------------------------------------------------------ generator (sim stream)
@@ -639,10 +642,576 @@ def shrink_sim(ctx, case, obs, budget=12):
     return case, obs
 
 
+# ------------------------------------------------------------------ snapshot stream (implementation only)
+def snap_case_bad(case, counters):
+    import epgpy as epg
+    objs = build_objects(case)
+    rec = {}
+
+    def wrap(pid, q):
+        f = quantity_fn(q)
+
+        def g(sm):
+            v = f(sm)
+            rec.setdefault(pid, []).append(np.array(v, copy=True))
+            return v
+        return g
+    for it in case["items"]:
+        if it["k"] == "probe" and it["probe"]["type"] in ("call", "expr"):
+            objs[it["id"]] = epg.Probe(wrap(it["id"], it["probe"]["q"]))
+    seq = [objs[it["id"]] for it in case["items"]]
+    init = np.array(case["init"], dtype=complex)
+    sm = epg.StateMatrix(init if case["B"] > 1 else init[0], density=case["pd"])
+    vals = epg.simulate(seq, init=sm, asarray=False)
+    pos = [k for k, it in enumerate(case["items"]) if it["k"] == "probe"]
+    seen = {}
+    for j, k in enumerate(pos):
+        it = case["items"][k]
+        if it["id"] in rec:
+            c = seen.get(it["id"], 0)
+            seen[it["id"]] = c + 1
+            counters["views"] += 1
+            if not np.array_equal(np.asarray(vals[j]), rec[it["id"]][c]):
+                return "value of probe occurrence %d changed after acquisition: returned %s, at acquisition %s" % (
+                    j, np.asarray(vals[j]).tolist(), rec[it["id"]][c].tolist())
+        trunc = epg.simulate(seq[:k + 1], init=sm, asarray=False)
+        counters["trunc"] += 1
+        if not np.array_equal(np.asarray(trunc[j]), np.asarray(vals[j])):
+            return "entry %d of the full run %s differs from the run stopped after that probe %s" % (
+                j, np.asarray(vals[j]).tolist(), np.asarray(trunc[j]).tolist())
+    return None
+
+
+def run_snap_stream(ctx, n):
+    """(a) the value a probe returned equals a copy taken at acquisition time, although the probe's callable
+    hands out a view of the state array and later operators work in place;
+    (b) entry j of the full run equals entry j of the run truncated right after the j-th probe"""
+    counters = {"views": 0, "trunc": 0}
+    for i in range(n):
+        case = gen_sim_case(ctx.rng, True)
+        case["tree"] = list(range(len(case["items"])))
+        try:
+            bad = snap_case_bad(case, counters)
+        except Exception as e:
+            ctx.report("simulate() raised %s on a valid sequence: %s" % (type(e).__name__, str(e)[:200]),
+                       {"snap_case": case}, found_input=True, signature={"stream": "snap", "raises": type(e).__name__})
+            continue
+        pos = [k for k, it in enumerate(case["items"]) if it["k"] == "probe"]
+        ctx.count(("snap", repr(case)), nontrivial=len(pos) >= 1 and pos[0] < len(case["items"]) - 1)
+        if bad:
+            ctx.report(bad, {"snap_case": case}, found_input=True, signature={"stream": "snap", "why": bad[:30]})
+    ctx.cov["snap_stream"] = {"cases": n, "view_probes_checked": counters["views"], "truncated_runs": counters["trunc"]}
+
+
+# ------------------------------------------------------------------ modify stream
+MHEADER = """From Coq Require Import List ZArith QArith Qcanon Bool.
+From EPG Require Import Scalar QI State Ops Run.
+Import ListNotations.
+Notation IOp := (@IOp QIops Qc). Notation IProbe := (@IProbe QIops Qc).
+Notation Leaf := (@Leaf QIops Qc). Notation Node := (@Node QIops Qc).
+Notation DT := (@DT QIops Qc). Notation DE := (@DE QIops Qc). Notation DP := (@DP QIops Qc).
+Definition X := @DOp QIops Qc (@OWait QIops).
+Definition PB := @mkProbe QIops (@QF0 QIops) None RNone None.
+Definition q (a : Z) (b : positive) : Qc := Q2Qc (a # b).
+Definition mod_ok := modify_ok QIops Qc Qcmult (Qc_eq_bool (Q2Qc 1)) (Q2Qc 10000000000) (Q2Qc 0) Qc_eq_bool.
+Definition mod_ok_multi := modify_ok_multi QIops Qc Qcmult (Qc_eq_bool (Q2Qc 1)) (Q2Qc 10000000000) (Q2Qc 0) Qc_eq_bool.
+"""
+
+MDUR = [0.0, 0.0, 0.5, 1.0, 2.5, 4.0, 0.125]
+
+
+def qq(x):
+    f = core.frac(x)
+    return "(q %s %d)" % (core.zlit(f.numerator), f.denominator)
+
+
+def gen_mod_case(rng):
+    n = rng.randint(2, 9)
+    items, nid = [], 0
+    for _ in range(n):
+        k = rng.choice(["T", "T", "T", "S", "S", "E", "E", "P", "wait", "offset", "spoil", "reset", "ADC", "Adc", "Probe", "repeat"])
+        if k == "repeat":
+            if items:
+                items.append(dict(rng.choice(items)))
+            continue
+        d = float(rng.choice(MDUR))
+        it = {"cls": k, "id": 3 * nid, "dur_arg": d if d else None}
+        if k == "T":
+            it.update(alpha=float(rng.choice([30, 45, 90, 180, 22.5, 120])), phi=float(rng.choice([0, 90, 45, 180])))
+        elif k == "S":
+            it.update(k=rng.choice([1, 1, 2, -1]))
+        elif k in ("E", "P"):
+            it.update(tau=float(rng.choice([1.0, 2.5, 5.0, 0.5])), T1=float(rng.choice([800, 1400])), T2=float(rng.choice([40, 75.5])),
+                      g=float(rng.choice([0, 0.125, 0.01])))
+            it["dur_arg"] = rng.choice([True, True, None, d or None])
+        elif k == "wait":
+            it["dur_arg"] = d or 1.5
+        elif k == "offset":
+            it["dur_arg"] = -float(rng.choice([0.5, 1.0]))
+        elif k in ("spoil", "reset", "ADC"):
+            it["dur_arg"] = None
+            it["id"] = {"spoil": 3000, "reset": 3003, "ADC": 3006}[k]     # module-level singletons
+        elif k in ("Adc", "Probe"):
+            it["dur_arg"] = None
+            it.update(attr=rng.choice(["F0", "Z0"]), phase=rng.choice([None, 30.0, 90]))
+        items.append(it)
+        nid += 1
+    if not any(it["cls"] in ("ADC", "Adc", "Probe") for it in items):
+        items.append({"cls": "ADC", "id": 3006, "dur_arg": None})
+    case = {"items": items}
+    for _ in range(10):
+        case["tree"] = gen_tree(rng, list(range(len(items))))
+        if multi_ok({"items": [{"dur": mdur(it)} for it in items]}, case["tree"]):
+            break
+    else:
+        case["tree"] = list(range(len(items)))
+    case["top_multi"] = rng.random() < 0.12 and multi_ok({"items": [{"dur": mdur(it)} for it in items]},
+                                                          [("multi", list(range(len(items))), "ctor")])
+    if case["top_multi"]:
+        case["tree"] = list(range(len(items)))
+    r = rng.random()
+    params = {}
+    if r > 0.08:
+        for name, vals in (("T1", [800.0, 1000.5, 1e10]), ("T2", [50.0, 80.25]), ("g", [0.0, 0.01, 0.125]),
+                           ("att", [1, 1.0, 0.5, 0.75, 1.25])):
+            x = rng.random()
+            if x < 0.5:
+                params[name] = rng.choice(vals)
+            elif x < 0.6:
+                params[name] = None           # keyword passed with value None
+    case["params"] = params
+    return case
+
+
+def mdur(it):
+    """duration the documentation promises for the constructor arguments (duration=True -> tau)"""
+    d = it["dur_arg"]
+    if d is True:
+        return it["tau"]
+    return 0.0 if d is None else d
+
+
+def build_mod_item(it):
+    import epgpy as epg
+    k, d = it["cls"], it["dur_arg"]
+    kw = {} if d is None else {"duration": d}
+    if k == "T":
+        return epg.T(it["alpha"], it["phi"], **kw)
+    if k == "S":
+        return epg.S(it["k"], **kw)
+    if k == "E":
+        return epg.E(it["tau"], it["T1"], it["T2"], it["g"], **kw)
+    if k == "P":
+        return epg.P(it["tau"], it["g"], **kw)
+    if k == "wait":
+        return epg.Wait(d)
+    if k == "offset":
+        return epg.Offset(d)
+    if k == "spoil":
+        return epg.SPOILER
+    if k == "reset":
+        return epg.RESET
+    if k == "ADC":
+        return epg.ADC
+    if k == "Adc":
+        return epg.Adc(it["attr"], phase=it["phase"])
+    if k == "Probe":
+        return epg.Probe(it["attr"])
+    raise ValueError(k)
+
+
+def c_mod_item(it):
+    d = qq(mdur(it))
+    if it["cls"] in ("ADC", "Adc", "Probe"):
+        return "(IProbe %d%%nat PB %s)" % (it["id"], d)
+    if it["cls"] == "T":
+        return "(IOp %d%%nat (DT %s %s) %s)" % (it["id"], qq(it["alpha"]), qq(it["phi"]), d)
+    return "(IOp %d%%nat X %s)" % (it["id"], d)
+
+
+def c_mod_tree(case, tree=None):
+    """a MultiOperator object holds the flat list of its members (append() extends with the members of a
+    nested MultiOperator), so a multi node is printed with its leaves"""
+    tree = case["tree"] if tree is None else tree
+
+    def leaves(nd):
+        return [nd] if isinstance(nd, int) else [x for y in nd[1] for x in leaves(y)]
+    out = []
+    for nd in tree:
+        if isinstance(nd, int):
+            out.append("(Leaf %s)" % c_mod_item(case["items"][nd]))
+        elif nd[0] == "multi":
+            out.append("(Node true %s)" % core.clist(["(Leaf %s)" % c_mod_item(case["items"][k]) for k in leaves(nd)]))
+        else:
+            out.append("(Node false %s)" % c_mod_tree(case, nd[1]))
+    return core.clist(out)
+
+
+class Unexpected(Exception):
+    pass
+
+
+def describe_leaf(obj, orig, fresh):
+    """Gallina item for an operator object of the list modify() returned"""
+    import epgpy as epg
+    if id(obj) in orig:
+        return c_mod_item(orig[id(obj)])
+    if id(obj) not in fresh:
+        fresh[id(obj)] = 3 * len(fresh) + 1
+    nid = fresh[id(obj)]
+
+    def sc(x):
+        if np.ndim(x) != 0:
+            raise Unexpected("array-valued parameter %r in a scalar case" % (x,))
+        return qq(float(x))
+    d = sc(obj.duration)
+    if type(obj) is epg.T:
+        return "(IOp %d%%nat (DT %s %s) %s)" % (nid, sc(obj.alpha), sc(obj.phi), d)
+    if type(obj) is epg.E:
+        return "(IOp %d%%nat (DE %s %s %s %s) %s)" % (nid, sc(obj.tau), sc(obj.T1), sc(obj.T2), sc(obj.g), d)
+    if type(obj) is epg.P:
+        return "(IOp %d%%nat (DP %s %s) %s)" % (nid, sc(obj.tau), sc(obj.g), d)
+    raise Unexpected("modify() created an operator of type %s" % type(obj).__name__)
+
+
+def run_mod_impl(case):
+    import epgpy as epg
+    from epgpy import operator
+    objs, orig = {}, {}
+    for it in case["items"]:
+        if it["id"] not in objs:
+            objs[it["id"]] = build_mod_item(it)
+            orig[id(objs[it["id"]])] = it
+    fake = {"items": [{"id": it["id"]} for it in case["items"]], "tree": case["tree"]}
+    seq = build_tree(fake, objs, None, [])
+    if case["top_multi"]:
+        seq = operator.MultiOperator(seq)
+    times = [float(t) for t in epg.get_adc_times(seq)]
+    res = epg.modify(seq, **case["params"])
+    times_mod = [float(t) for t in epg.get_adc_times(res)]
+    fresh = {}
+    if case["top_multi"]:
+        if not isinstance(res, operator.MultiOperator):
+            raise Unexpected("modify(MultiOperator) did not return a MultiOperator")
+        obs = core.clist([describe_leaf(o, orig, fresh) for o in res.operators])
+    else:
+        def walk(x):
+            if isinstance(x, list):
+                return "(Node false %s)" % core.clist([walk(y) for y in x])
+            if isinstance(x, operator.MultiOperator):
+                return "(Node true %s)" % core.clist(["(Leaf %s)" % describe_leaf(o, orig, fresh) for o in x.operators])
+            return "(Leaf %s)" % describe_leaf(x, orig, fresh)
+        if not isinstance(res, list):
+            raise Unexpected("modify(list) returned a %s" % type(res).__name__)
+        obs = core.clist([walk(x) for x in res])
+    # durations of the returned elements = durations of the operators they replace (when flattened by modify)
+    return {"obs": obs, "times": times, "times_mod": times_mod, "seq": seq, "res": res, "objs": objs}
+
+
+def hand_inserted(case, objs):
+    """specification: flat sequence with explicit evolutions after every operator of positive duration"""
+    import epgpy as epg
+    flat = []
+
+    def walk(tree):
+        for nd in tree:
+            if isinstance(nd, int):
+                flat.append(case["items"][nd])
+            else:
+                walk(nd[1])
+    walk(case["tree"])
+    P = case["params"]
+    T1, T2, g, att = P.get("T1"), P.get("T2"), P.get("g"), P.get("att")
+    out = []
+    for it in flat:
+        o = objs[it["id"]]
+        d = mdur(it)
+        if it["cls"] == "T" and att is not None and not np.allclose(att, 1):
+            o = epg.T(it["alpha"] * np.asarray(att), it["phi"], **({"duration": d} if d else {}))
+        out.append(o)
+        if np.any(np.asarray(d) > 0):
+            if T1 is None and T2 is None and g is None:
+                continue
+            if T1 is None and T2 is None:
+                out.append(epg.P(d, g))
+            else:
+                out.append(epg.E(d, 1e10 if T1 is None else T1, 1e10 if T2 is None else T2, 0 if g is None else g))
+    return out
+
+
+def c_params(params):
+    def o(name):
+        v = params.get(name)
+        return "None" if v is None else "(Some %s)" % qq(float(v))
+    return "(mkMP %s %s %s %s)" % (o("T1"), o("T2"), o("g"), o("att"))
+
+
+def mod_term(case, r):
+    times = core.clist([qq(t) for t in r["times"]])
+    times_mod = core.clist([qq(t) for t in r["times_mod"]])
+    if case["top_multi"]:
+        return "(mod_ok_multi %s %s %s %s %s)" % (c_mod_tree(case), c_params(case["params"]), r["obs"], times, times_mod)
+    return "(mod_ok %s %s %s %s %s %s)" % (c_mod_tree(case), c_params(case["params"]), core.coq_bool(bool(case["params"])),
+                                           r["obs"], times, times_mod)
+
+
+def compare_runs(a, b, tol=1e-12):
+    ta, va = a
+    tb, vb = b
+    ta, tb = np.asarray(ta, dtype=float), np.asarray(tb, dtype=float)
+    if ta.shape != tb.shape or not np.array_equal(ta, tb):
+        return "acquisition times differ: %s vs %s" % (ta.tolist(), tb.tolist())
+    va, vb = np.asarray(va), np.asarray(vb)
+    if va.shape != vb.shape:
+        return "shapes of the simulated values differ: %s vs %s" % (va.shape, vb.shape)
+    err = np.abs(va - vb).max() if va.size else 0.0
+    if not err <= tol * (1 + np.abs(vb).max()):
+        return "simulate(modify(seq)) differs from the sequence with explicitly inserted evolutions by %.3g" % err
+    return None
+
+
+def run_mod_stream(ctx, n):
+    import epgpy as epg
+    terms, kept = [], []
+    stats = {"params": {}, "top_multi": 0, "no_keyword": 0, "repeated_objects": 0, "numeric_comparisons": 0}
+    for i in range(n):
+        case = gen_mod_case(ctx.rng)
+        try:
+            r = run_mod_impl(case)
+            hand = hand_inserted(case, r["objs"])
+            why = compare_runs(epg.simulate(r["res"], adc_time=True), epg.simulate(hand, adc_time=True))
+            stats["numeric_comparisons"] += 1
+            if not why and r["times_mod"] != r["times"]:
+                why = "modify() changed the acquisition times: %s -> %s" % (r["times"], r["times_mod"])
+        except Unexpected as e:
+            ctx.report(str(e), {"mod_case": case}, found_input=True, signature={"stream": "modify", "why": str(e)[:30]})
+            continue
+        except Exception as e:
+            ctx.report("modify()/simulate raised %s on a valid sequence: %s" % (type(e).__name__, str(e)[:200]),
+                       {"mod_case": case}, found_input=True, signature={"stream": "modify", "raises": type(e).__name__})
+            continue
+        ctx.count(("mod", repr(case)), nontrivial=bool(case["params"]))
+        if i < 2:
+            ctx.sample({"mod_case": {"items": [(it["cls"], it["dur_arg"]) for it in case["items"]], "params": case["params"],
+                                     "tree": repr(case["tree"])}, "modify_returned": repr(r["res"])[:300]})
+        key = ",".join(sorted(k for k, v in case["params"].items() if v is not None)) or "-"
+        stats["params"][key] = stats["params"].get(key, 0) + 1
+        stats["top_multi"] += case["top_multi"]
+        stats["no_keyword"] += not case["params"]
+        ids = [it["id"] for it in case["items"]]
+        stats["repeated_objects"] += len(ids) != len(set(ids))
+        if why:
+            ctx.report(why, {"mod_case": case}, found_input=True, signature={"stream": "modify", "why": why[:30], "params": key})
+            continue
+        terms.append(mod_term(case, r))
+        kept.append(case)
+    verdicts, errors = ctx.run_bool_cases("mod", MHEADER, terms, chunk=20)
+    for e in errors:
+        ctx.report("correspondence shard failed to evaluate", {"theorem_or_correspondence": "C12 modify correspondence (Cases)", "coq_output": e}, found_input=False)
+    nbad = 0
+    for case, v in zip(kept, verdicts):
+        if v is False:
+            nbad += 1
+            if nbad <= 6:
+                # numerics agreed with the hand-inserted sequence (checked above): the structure / sharing / durations differ
+                ctx.report("modify() returned a sequence whose structure (operators, parameters, durations, grouping, object sharing) "
+                           "differs from modify_model", {"mod_case": case, "theorem_or_correspondence": "C12 modify_model vs epgpy.modify"},
+                           found_input=False, signature={"stream": "modify", "why": "structure"})
+    ctx.cov["modify_stream"] = stats
+    run_expand_stream(ctx, max(6, n // 6), stats)
+
+
+def run_expand_stream(ctx, n, stats):
+    """array-valued T1/T2/g/att, expand on/off, array durations: simulate(modify(seq)) against explicit insertion"""
+    import epgpy as epg
+    rng = ctx.rng
+    done = 0
+    reported = set()
+    for i in range(n):
+        ns = rng.choice([1, 2, 3])                      # sequence batch size
+        alpha = [float(rng.choice([20, 45, 90, 150])) for _ in range(ns)]
+        expand = rng.random() < 0.6
+        np_ = ns if not expand else rng.choice([1, 2, 3, 4])
+        adur = rng.random() < 0.3
+        d1 = [float(rng.choice([1.0, 2.0, 0.5, 0.0])) for _ in range(ns)] if adur else float(rng.choice([1.0, 2.5]))
+        d2 = float(rng.choice([0.5, 3.0]))
+        case = {"alpha": alpha, "expand": expand, "d1": d1, "d2": d2, "params": {}}
+        for name, vals in (("T1", [600.0, 900.0, 1400.0, 2000.0]), ("T2", [30.0, 50.0, 80.0, 120.0]), ("g", [0.0, 0.01, 0.05, -0.02]),
+                           ("att", [0.5, 0.8, 1.0, 1.2])):
+            x = rng.random()
+            if x < 0.35:
+                case["params"][name] = [rng.choice(vals) for _ in range(np_)]
+            elif x < 0.7:
+                case["params"][name] = rng.choice(vals)
+        if not case["params"]:
+            case["params"]["T2"] = [50.0] * np_
+        # input class of a defect found by this stream (see known_findings.json): array att, batched flip angles, expand=True
+        att_class = expand and ns > 1 and isinstance(case["params"].get("att"), list)
+        try:
+            why = expand_case_disagrees(case)
+        except Exception as e:
+            why = "modify()/simulate raised %s with array parameters: %s" % (type(e).__name__, str(e)[:200])
+        done += 1
+        ctx.count(("expand", repr(case)), nontrivial=True)
+        if why:
+            sig = {"call": "modify", "att": "array", "T": "batched", "expand": True} if att_class else \
+                {"stream": "expand", "why": why[:30], "expand": expand}
+            if repr(sig) in reported:
+                continue                         # one replay per input class and run
+            reported.add(repr(sig))
+            ctx.report(why, {"expand_case": case}, found_input=True, signature=sig)
+    stats["expand_cases"] = done
+
+
+def expand_case_disagrees(case):
+    import epgpy as epg
+    a = np.array(case["alpha"]) if len(case["alpha"]) > 1 else case["alpha"][0]
+    d1 = np.array(case["d1"]) if isinstance(case["d1"], list) else case["d1"]
+    d2 = case["d2"]
+    seq = [epg.T(a, 90, duration=0.25), epg.S(1, duration=d1), epg.T(150, 0), epg.S(1, duration=d2), epg.ADC,
+           epg.Wait(1.0), epg.Adc("Z0")]
+    P = {k: (np.array(v) if isinstance(v, list) else v) for k, v in case["params"].items()}
+    res = epg.modify(seq, expand=case["expand"], **P)
+    nd = 1                                                   # the sequence has one batch axis (possibly of size 1)
+    batched = len(case["alpha"]) > 1
+
+    def prep(v):
+        if v is None or np.ndim(v) == 0:
+            return v
+        return v[(None,) * nd] if (case["expand"] and batched) else v
+    T1, T2, g, att = (prep(P.get(k)) for k in ("T1", "T2", "g", "att"))
+
+    def evo(d):
+        if not np.any(np.asarray(d) > 0) or (T1 is None and T2 is None and g is None):
+            return []
+        if T1 is None and T2 is None:
+            return [epg.P(d, g)]
+        return [epg.E(d, 1e10 if T1 is None else T1, 1e10 if T2 is None else T2, 0 if g is None else g)]
+
+    def rf(al, ph):
+        if att is None or np.allclose(att, 1):
+            return epg.T(al, ph)
+        al = np.asarray(al, dtype=float)
+        k = np.asarray(att, dtype=float)
+        if al.ndim and k.ndim > al.ndim:                 # epgpy aligns batch axes on the left: new axes are appended
+            al = al.reshape(al.shape + (1,) * (k.ndim - al.ndim))
+        return epg.T(al * k, ph)
+    hand = [rf(a, 90)] + evo(0.25) + [epg.S(1)] + evo(d1) + [rf(150, 0), epg.S(1)] + evo(d2) + [epg.ADC] + evo(1.0) + [epg.Adc("Z0")]
+    t_ref = epg.get_adc_times(seq)
+    t_mod, v_mod = epg.simulate(res, adc_time=True)
+    v_hand = epg.simulate(hand)
+    t_ref = np.asarray(np.broadcast_arrays(*[np.asarray(t, dtype=float) for t in t_ref]))
+    if not np.array_equal(np.asarray(t_mod, dtype=float).reshape(t_ref.shape) if np.size(t_mod) == t_ref.size else t_mod, t_ref):
+        return "modify() changed the acquisition times: %s -> %s" % (t_ref.tolist(), np.asarray(t_mod).tolist())
+    v_mod, v_hand = np.asarray(v_mod), np.asarray(v_hand)
+    try:
+        v_mod, v_hand = np.broadcast_arrays(v_mod, v_hand)
+    except ValueError:
+        return "shape of simulate(modify(seq)) %s is not that of the explicitly expanded sequence %s" % (v_mod.shape, v_hand.shape)
+    err = np.abs(v_mod - v_hand).max()
+    if not err <= 1e-12 * (1 + np.abs(v_hand).max()):
+        return "simulate(modify(seq, expand=%s)) differs from explicit insertion by %.3g" % (case["expand"], err)
+    return None
+
+
+# ------------------------------------------------------------------ phasor stream (Interval inside Coq)
+PHEADER = """From Coq Require Import Reals.
+From Interval Require Import Tactic.
+Local Open Scope R_scope.
+Ltac tie n := tryif assert_succeeds (solve [repeat split; interval with (i_prec 90)]) then idtac "TIE-OK" n else idtac "TIE-FAIL" n.
+"""
+
+
+def run_phasor_stream(ctx, n):
+    """Adc(phase=p).phasor = exp(i*p*pi/180), p in degrees, as documented"""
+    import os, re
+    import epgpy as epg
+    from vlib import tie
+    goals, meta = [], []
+    for i in range(n):
+        ph = Fraction(ctx.rng.randint(-2880, 2880), ctx.rng.choice([1, 2, 4, 8])) if i >= 4 else Fraction([90, 180, 270, -90][i])
+        try:
+            z = complex(np.asarray(epg.Adc("F0", phase=float(ph)).phasor))
+        except Exception as e:
+            ctx.report("Adc(phase=%s) raised %s" % (float(ph), e), {"phase": float(ph)}, found_input=True, signature={"stream": "phasor", "raises": type(e).__name__})
+            continue
+        arg = "(%s * PI / 180)" % tie.rlit(ph)
+        tol = tie.rlit(Fraction(1, 10 ** 13))
+        goals.append("Goal Rabs (cos %s - %s) <= %s /\\ Rabs (sin %s - %s) <= %s.\nProof. tie %d%%nat. Abort." % (
+            arg, tie.rlit(Fraction(z.real)), tol, arg, tie.rlit(Fraction(z.imag)), tol, len(goals)))
+        meta.append((float(ph), z))
+        ctx.count(("phasor", str(ph)), nontrivial=True)
+    path = os.path.join(core.CASES, "%s_phasor.v" % ctx.pid)
+    with open(path, "w") as f:
+        f.write(PHEADER + "\n".join(goals) + "\n")
+    res = core.coqc_many([path])
+    ctx._case_files.append(path)
+    rc, out = res[path]
+    if rc != 0:
+        ctx.report("phasor shard failed to compile", {"theorem_or_correspondence": "C12 Interval check of Adc.phasor", "coq_output": out[-1500:]}, found_input=False)
+        return
+    ok = {int(m) for m in re.findall(r"TIE-OK (\d+)", out)}
+    for i, (ph, z) in enumerate(meta):
+        if i not in ok:
+            ctx.report("Adc(phase=%s).phasor = %s is not exp(i*phase*pi/180)" % (ph, z), {"phase": ph, "phasor": [z.real, z.imag]},
+                       found_input=True, signature={"stream": "phasor", "why": "value"})
+    ctx.cov["phasor_interval_points"] = len(ok)
+
+
+# ------------------------------------------------------------------ deterministic probes of duration bookkeeping
+def grouping_probe(name):
+    """returns a description of the discrepancy, or None"""
+    import epgpy as epg
+    from epgpy import operator
+    if name == "mul_offset":
+        # the same four operators as a list, as MultiOperator([...]) and as a `*` chain: same timing expected
+        mk = lambda: [epg.Offset(-3.0), epg.Wait(1.0), epg.Wait(5.0), epg.ADC]
+        ref = [float(t) for t in epg.get_adc_times([epg.Wait(4.0), mk()])]
+        for label, build in (("MultiOperator([...])", lambda: operator.MultiOperator(mk())),
+                             ("a * b * c * d", lambda: mk()[0] * mk()[1] * mk()[2] * mk()[3])):
+            try:
+                got = [float(t) for t in epg.get_adc_times([epg.Wait(4.0), build()])]
+            except Exception as e:
+                return "grouping Offset(-3), Wait(1), Wait(5), ADC as %s raised %s: %s (as a list the acquisition time is %s)" % (
+                    label, type(e).__name__, e, ref)
+            if got != ref:
+                return "acquisition time of the group built as %s is %s, as a list %s" % (label, got, ref)
+        return None
+    if name == "multi_explicit_duration":
+        m = operator.MultiOperator([epg.T(90, 90), epg.S(1)], duration=5.0)
+        t1 = [float(t) for t in epg.get_adc_times([m, epg.ADC])]
+        t2 = [float(t) for t in np.asarray(epg.simulate([m, epg.ADC], adc_time=True)[0]).tolist()]
+        if t1 != [float(m.duration)] or t2 != [float(m.duration)]:
+            return "MultiOperator(..., duration=5.0).duration is %s but get_adc_times reports %s and simulate %s" % (m.duration, t1, t2)
+        return None
+    raise ValueError(name)
+
+
+GROUPING_SIGNATURES = {
+    "mul_offset": {"call": "Operator.__mul__", "first_members": "Offset", "partial_total": "negative"},
+    "multi_explicit_duration": {"call": "MultiOperator", "duration": "explicit", "timing": "ignored"},
+}
+
+
+def run_grouping_probes(ctx):
+    for name, sig in GROUPING_SIGNATURES.items():
+        try:
+            why = grouping_probe(name)
+        except Exception as e:
+            why = "probe raised %s: %s" % (type(e).__name__, e)
+        ctx.count(("grouping", name), nontrivial=True)
+        if why:
+            ctx.report(why, {"grouping_probe": name}, found_input=True, signature=sig)
+
+
 def run(ctx):
     proved = ctx.prove(gen=False)
     quick = ctx.tier == "quick"
     run_sim_stream(ctx, 150 if quick else 2500)
+    run_snap_stream(ctx, 40 if quick else 600)
+    run_mod_stream(ctx, 100 if quick else 1500)
+    run_phasor_stream(ctx, 12 if quick else 120)
+    run_grouping_probes(ctx)
     ctx.cov["trusted_base"] += [
         "hand-written model Model/Run.v (on Model/State.v, Model/Ops.v) tied to epgpy.simulate / get_adc_times / modify by correspondence",
     ]
@@ -651,16 +1220,78 @@ def run(ctx):
                    {"theorem_or_correspondence": ctx.failed_obligations}, found_input=False)
 
 
-def replay(ctx, rp):
-    if "sim_case" in rp:
-        case = rp["sim_case"]
+def fix_case(case):
+    """JSON round trip: tuples became lists, complex numbers strings"""
+    def cx(x):
+        if isinstance(x, str):
+            try:
+                return complex(x)
+            except ValueError:
+                return x
+        if isinstance(x, list):
+            return [cx(y) for y in x]
+        if isinstance(x, dict):
+            return {k: cx(v) for k, v in x.items()}
+        return x
+    case = cx(case)
+    if "tree" in case:
         case["tree"] = untuple(case["tree"])
+
+    def fixp(p):
+        if isinstance(p, dict) and "q" in p:
+            if isinstance(p["q"], list):
+                p["q"] = tuple(p["q"])
+            if isinstance(p.get("reduce"), list):
+                p["reduce"] = tuple(p["reduce"])
+    for it in case.get("items", []):
+        if it.get("k") == "probe":
+            fixp(it["probe"])
+    ov = case.get("override")
+    if isinstance(ov, dict):
+        for o in ([ov["single"]] if "single" in ov else ov["list"]):
+            fixp(o)
+    return case
+
+
+def replay(ctx, rp):
+    import epgpy as epg
+    why = None
+    if "sim_case" in rp:
+        case = fix_case(rp["sim_case"])
         obs = run_sim_impl(case)
         why = oracle_disagrees(case, obs)
-        print("replay:", ("VIOLATION reproduced: " + why) if why else "no discrepancy with the specification oracle")
-        return 1 if why else 0
-    print("replay: not an input replay (%s)" % rp.get("what"))
-    return 1
+    elif "snap_case" in rp:
+        why = snap_case_bad(fix_case(rp["snap_case"]), {"views": 0, "trunc": 0})
+    elif "expand_case" in rp:
+        try:
+            why = expand_case_disagrees(rp["expand_case"])
+        except Exception as e:
+            why = "modify()/simulate raised %s: %s" % (type(e).__name__, e)
+    elif "mod_case" in rp:
+        case = fix_case(rp["mod_case"])
+        try:
+            r = run_mod_impl(case)
+            why = compare_runs(epg.simulate(r["res"], adc_time=True), epg.simulate(hand_inserted(case, r["objs"]), adc_time=True))
+            if not why and r["times_mod"] != r["times"]:
+                why = "modify() changed the acquisition times"
+            if not why:
+                v, errs = ctx.run_bool_cases("replay", MHEADER, [mod_term(case, r)], chunk=1)
+                ctx.cleanup_cases()
+                if not (v and v[0] is True):
+                    why = "structure of the sequence returned by modify() differs from modify_model"
+        except Exception as e:
+            why = "modify()/simulate raised %s: %s" % (type(e).__name__, e)
+    elif "grouping_probe" in rp:
+        why = grouping_probe(rp["grouping_probe"])
+    elif "phase" in rp:
+        z = complex(np.asarray(epg.Adc("F0", phase=rp["phase"]).phasor))
+        ref = complex(math.cos(math.radians(rp["phase"])), math.sin(math.radians(rp["phase"])))
+        why = None if abs(z - ref) < 1e-12 else "Adc.phasor = %s, exp(i*phase) = %s" % (z, ref)
+    else:
+        print("replay: not an input replay (%s)" % rp.get("what"))
+        return 1
+    print("replay:", ("VIOLATION reproduced: " + why) if why else "no discrepancy")
+    return 1 if why else 0
 
 
 def untuple(tree):
